@@ -221,7 +221,7 @@ fn gen_choose_unrank(rng: &mut Rng, tier: Tier, cases: &mut Vec<Case>) {
         }
     }
     // histories: `choose` / `decode_u64` / the iterator are stateless, so any order of calls must give the same
-    // answers; every case runs on a fresh thread (see `execute`), so a cache - global or thread-local - starts
+    // answers; every case runs on a fresh thread (`harness_main`), so a cache - global or thread-local - starts
     // empty and is filled in the order of the case: small n first, narrow k before wide k, decode in between
     let hist = match tier {
         Tier::Quick => 400,
@@ -709,16 +709,8 @@ fn exec_huffman(tag: &str, table: &[(u32, i32)], obs: &mut Vec<String>) {
     obs.push(format!("F {tag} {}", words.join(" ")).trim_end().to_string());
 }
 
-/// every case runs on a thread of its own: state that the library might keep per thread (a memo table, a scratch
-/// buffer) is fresh for each case and is built up in the order of the case's own operations
+/// (every case runs on a thread of its own: `harness_main`)
 fn execute(c: &Case, obs: &mut Vec<String>) {
-    let r = std::thread::scope(|s| s.spawn(|| execute_on_this_thread(c, &mut *obs)).join());
-    if let Err(p) = r {
-        std::panic::resume_unwind(p);
-    }
-}
-
-fn execute_on_this_thread(c: &Case, obs: &mut Vec<String>) {
     let mut i = 0;
     while i < c.ops.len() {
         let t: Vec<&str> = c.ops[i].split_whitespace().collect();
